@@ -211,7 +211,7 @@ def run(ctx):
             if i < 2:
                 ctx.sample(dict(kind=kind, vectors=fam.vectors[:4]))
         # (iii) multi-branch: same weight shape in every branch, condition field flipped
-        nb = ctx.n(20, 1000)
+        nb = ctx.n(20, 3000)
         for i in range(nb):
             v = ramp_pair(rnd)[0]
             def grp(prefix):
